@@ -19,6 +19,7 @@ import (
 
 	"kvassverif/internal/core"
 	"kvassverif/internal/e3"
+	"kvassverif/internal/e7"
 	"kvassverif/internal/sc"
 	"tkestack.io/kvass/pkg/api"
 	"tkestack.io/kvass/pkg/coordinator"
@@ -34,7 +35,7 @@ type c20Target struct {
 	Job      string `json:"job"`
 	Prefix   int    `json:"failuresBeforeSuccess"`
 	Latency  int    `json:"latencyMs"`
-	FailKind string `json:"failKind"` // 500 | hangup (connection closed in the middle of the body) | 204
+	FailKind string `json:"failKind"` // 500 | hangup (connection closed in the middle of the body) | reset (the same with a TCP reset) | 204
 	Removal  string `json:"removal"`  // "" | remove | readd
 	NSamples int    `json:"samples"`
 }
@@ -95,7 +96,7 @@ func c20Gen(w *core.WorkerCtx, idx int) *c20Case {
 			t.Prefix = 1 + r.Intn(c.MaxPrefix)
 		}
 		if r.Intn(3) == 0 {
-			t.FailKind = r.PickS("hangup", "hangup", "204")
+			t.FailKind = r.PickS("hangup", "reset", "204", "reset")
 		}
 		switch r.Intn(6) {
 		case 0:
@@ -178,6 +179,20 @@ func (f *farm) serve(w http.ResponseWriter, r *http.Request) {
 		// not an error status, not a scrape either: an exporter still warming up
 		w.WriteHeader(204)
 		return
+	}
+	if t.FailKind == "reset" {
+		// part of the body, then the connection is RESET (RST instead of FIN: the exporter was killed)
+		if hj, ok := w.(http.Hijacker); ok {
+			if c, _, err := hj.Hijack(); err == nil {
+				c.Write([]byte("HTTP/1.1 200 OK\r\nContent-Type: text/plain\r\nContent-Length: 4096\r\n\r\npartial_metric 1\nanother_partial_metric 2\n"))
+				time.Sleep(20 * time.Millisecond) // let the client read what was sent before the reset discards it
+				if tc, ok := c.(*net.TCPConn); ok {
+					_ = tc.SetLinger(0)
+				}
+				c.Close()
+				return
+			}
+		}
 	}
 	if t.FailKind == "hangup" {
 		if hj, ok := w.(http.Hijacker); ok {
@@ -671,10 +686,11 @@ func init() {
 	core.Register(&core.Prop{
 		ID:    "C20",
 		Level: "exploration",
-		Rule: "case = the real Explore + scrape.Manager + TargetsDiscovery wired as in cmd/kvass/coordinator.go, 30-300 loopback HTTP targets with scripted latency (0-300 ms), 0-2 (thorough: up to 4) failing probes (HTTP 500 or connection closed mid-body) before the first success, 1-200 explorer workers, the real 5 s retry interval; " +
+		Rule: "case = the real Explore + scrape.Manager + TargetsDiscovery wired as in cmd/kvass/coordinator.go, 30-300 loopback HTTP targets with scripted latency (0-300 ms), 0-2 (thorough: up to 4) failing probes (HTTP 500, 204, connection closed mid-body with FIN or with a TCP reset) before the first success, 1-200 explorer workers, the real 5 s retry interval; " +
 			"during the run a discovery update removes a third of the targets inside the retry sleep, a later one re-adds most of them, then a reload keeps or drops job jb; every second case also runs the real coordinator against a stub shard with unlimited room; " +
 			"monitors: arrival/departure/outcome/in-flight count of every request at the targets, Explore.Get results polled every 40 ms (not in the -race pass), POST bodies at the stub shard; oracle = per-target probe-lifecycle automaton per presence period (probed once asked for, single flight, retry no earlier than the interval and within interval+10 s, silence after success, at most one probe after removal), estimate = payload counts only after a success, no assignment before a successful probe; " +
 			"plus cases in which a job's HTTP client cannot be built when its targets are first asked for (CA file missing at that reload) and can after a later reload: within interval + 10 s of the repair every target must have been probed and carry a healthy estimate; and cases in which a reload changes a job's metric relabel rules and params before a new target of that job is probed for the first time (estimate under the new rules, request with the new params); and cases with a configured param that some targets override through a __param_ label (every probe carries its own target's params, whatever was probed before); " +
+			"plus 2/6 cases on the REAL coordinator binary (engine E7, --sd.init-timeout 6-8 s): one target answers 503 for good, another is added to the configuration 3 s after the start-up window has passed: the new one must be assigned (so it was probed) within 80 coordination cycles and the failing one must be probed again within 150; " +
 			"plus 1/4 flood cases: more than 10000 + workers targets are asked for in one period while every probe is held at the target until the asking stalls or ends (the explorer's queue holds 10000): every one must be probed exactly once and carry the probe's estimate; " +
 			"one probe body in ten has 2500-5500 samples (several 64 KiB parser blocks); " +
 			"a -race pass repeats 2 cases without harness reads; non-trivial = at least half of the targets were probed; distinct = parameter tuple + target script hash",
@@ -684,9 +700,9 @@ func init() {
 		},
 		NumCases: func(tier string) int {
 			if tier == "thorough" {
-				return c20NumCases(tier) + c20LateThorough + c20ReloadThorough + c20ParamThorough + c20FloodThorough
+				return c20NumCases(tier) + c20LateThorough + c20ReloadThorough + c20ParamThorough + c20FloodThorough + 6
 			}
-			return c20NumCases(tier) + c20LateQuick + c20ReloadQuick + c20ParamQuick + c20FloodQuick
+			return c20NumCases(tier) + c20LateQuick + c20ReloadQuick + c20ParamQuick + c20FloodQuick + 2
 		},
 		Run: func(w *core.WorkerCtx, idx int) *core.CaseResult {
 			if n := c20NumCases(w.Tier); idx >= n {
@@ -701,6 +717,14 @@ func init() {
 				np := c20ParamQuick
 				if w.Tier == "thorough" {
 					np = c20ParamThorough
+				}
+				nf := c20FloodQuick
+				if w.Tier == "thorough" {
+					nf = c20FloodThorough
+				}
+				if idx-n >= nl+nr+np+nf {
+					// the real coordinator binary: a failing target and a target that appears after --sd.init-timeout
+					return e7.Run(w, idx-n-nl-nr-np-nf, "C20")
 				}
 				if idx-n >= nl+nr+np {
 					return runC20Flood(w, idx-n-nl-nr-np)
